@@ -1,6 +1,8 @@
 """C12 - a Textgrid is an ordered, uniquely-named tier map and edits act tier-wise."""
 from __future__ import annotations
 
+import math
+
 from hypothesis import strategies as st
 
 from vlib import gen, models
@@ -201,7 +203,10 @@ def enum_bfs(tier, shard, nshards):
 @st.composite
 def span_histories(draw):
     ops = []
-    spans = [(0.0, 1.0), (0.0, 2.0), (0.5, 3.0), (1.0, 1.5), (0.0, 4.0)]
+    spans = [(0.0, 1.0), (0.0, 2.0), (0.5, 3.0), (1.0, 1.5), (0.0, 4.0),
+             # spans that differ from the others in the last place only: a wider tier is a wider tier
+             (0.0, math.nextafter(2.0, math.inf)), (math.nextafter(0.5, -math.inf), 3.0), (0.0, 0.3), (0.0, 0.1 + 0.2),
+             (0.0, math.nextafter(4.0, math.inf))]
     for _ in range(draw(st.integers(1, 8))):
         k = draw(st.sampled_from(["add", "add", "remove", "rename", "replace"]))
         nm = draw(st.sampled_from(NAMES))
@@ -245,6 +250,8 @@ def run_span_history(case):
             hi = span[1] if hi is None else max(hi, span[1])
             if before_span != (None, None) and (span[0] < before_span[0] or span[1] > before_span[1]):
                 classes.add("span_widened")
+                if (span[0] >= before_span[0] or before_span[0] - span[0] < 1e-9) and (span[1] <= before_span[1] or span[1] - before_span[1] < 1e-9):
+                    classes.add("span_widened_by_an_ulp")
         if (tg.minTimestamp, tg.maxTimestamp) != (lo, hi):
             raise Violation("span", f"{what}: span [{tg.minTimestamp},{tg.maxTimestamp}] != model [{lo},{hi}]")
         state = new_state
